@@ -183,8 +183,56 @@ func genCase(big bool) func(t *rapid.T) Case {
 			}
 			return e
 		}), 2, 18).Draw(t, "events")
+		if big && !straddle && kit.Uni(t, "dispute", 5) == 0 {
+			disputeReorg(t, &c, base, fut)
+		}
 		return c
 	}
+}
+
+// disputeReorg turns the case into a checkpoint dispute that takes several
+// rounds with a reorganisation in between: liar A lies inside the last full
+// checkpoint interval (so the peers' checkpoint lists differ and the filter
+// headers of that interval up to the tip are fetched from everybody), liar B
+// lies a few blocks below the tip (a second mismatch in the same batch of
+// responses, examined in a later round), at least one of the rounds takes
+// virtual time (a peer that does not serve the disputed filter, or slow
+// answers), and the first event reorganises the chain to a heavier branch that
+// replaces the block B lied about.
+func disputeReorg(t *rapid.T, c *Case, base, fut int) {
+	k := base / 1000
+	at := base - rapid.IntRange(2, 8).Draw(t, "dforkback")
+	c.World.Branches = []kit.BranchSpec{{Parent: 0, At: at, Len: base + fut - at + rapid.IntRange(1, 6).Draw(t, "dextra"), Pace: 1}}
+	c.Hard = nil
+	// The liars are only let in once the honest peer has been asked for
+	// block headers. For all three to be asked for their filter checkpoints
+	// in one query (which is what makes a dispute), the block headers lag a
+	// little and the honest peer takes a moment to answer: the liars finish
+	// their handshakes while the client waits for those headers.
+	c.BlockLag = rapid.IntRange(1, 20).Draw(t, "dlag")
+	c.FilterPrefill = -1
+	if lim := (k - 1) * 1000; lim >= 1 && rapid.Bool().Draw(t, "dprefill") {
+		c.FilterPrefill = rapid.IntRange(1, lim).Draw(t, "dfp")
+	}
+	h1 := (k-1)*1000 + rapid.IntRange(1, 1000).Draw(t, "dh1")
+	h2 := rapid.IntRange(at+1, base).Draw(t, "dh2")
+	c.Peers = []PeerSpec{
+		{Kind: "honest", DelayMs: kit.Pick(t, "dhd", []int{20, 200, 200})},
+		{Kind: kit.Pick(t, "dka", []string{"unserved", "unserved", "inconsistent", "omit"}), From: h1, Early: true, DelayMs: kit.Pick(t, "dda", []int{0, 0, 20, 200})},
+		{Kind: kit.Pick(t, "dkb", []string{"omit", "empty", "inconsistent", "unserved"}), From: h2, Early: true, DelayMs: kit.Pick(t, "ddb", []int{0, 0, 20})},
+	}
+	if rapid.Bool().Draw(t, "dhonest2") {
+		c.Peers = append(c.Peers, PeerSpec{Kind: "honest", Early: true, DelayMs: kit.Pick(t, "dhd2", []int{0, 20, 200})})
+	}
+	ev := []Event{}
+	for i, n := 0, rapid.IntRange(0, 2).Draw(t, "dpre"); i < n; i++ {
+		ev = append(ev, Event{Kind: "advance", N: kit.Pick(t, "dpresecs", []int{0, 0, 1, 4})})
+	}
+	ev = append(ev, Event{Kind: "reorg", N: 1})
+	for i, n := 0, rapid.IntRange(1, 6).Draw(t, "dpost"); i < n; i++ {
+		ev = append(ev, Event{Kind: kit.Pick(t, "dpostk", []string{"advance", "advance", "grow"}), N: kit.Pick(t, "dpostsecs", []int{0, 1, 4, 12, 45})})
+	}
+	c.Events = ev
 }
 
 type oracle struct {
